@@ -277,7 +277,16 @@ def run_check(prop, tier, seed, args, t0):
         if not lem.assumed:
             obls.extend(lem.obligations(prop))
     for extra in plan.extra_obligations:
-        obls.extend(extra(plan))
+        try:
+            obls.extend(extra(plan))
+        except (Unsupported, extract.ExtractError, AnchorLost) as e:
+            # the code no longer has the shape these obligations are read from: same treatment as a function that cannot be generated
+            c_ = getattr(extra, "contract", None)
+            if c_ is None:
+                raise
+            rep = FnReport(c_)
+            rep.status, rep.detail = "unsupported", f"{type(e).__name__}: {e}"
+            reports.append(rep)
     gen_s = time.time() - t0
     # ---- solve
     ts = time.time()
